@@ -1,5 +1,8 @@
 pub mod c01;
 pub mod c07;
+pub mod c08;
+pub mod c08_spec;
+pub mod c09;
 pub mod c10;
 pub mod c11;
 pub mod c12;
@@ -13,6 +16,8 @@ pub fn dispatch(id: &str) -> Option<fn(&mut Engine)> {
     match id {
         "C01" => Some(c01::run),
         "C07" => Some(c07::run),
+        "C08" => Some(c08::run),
+        "C09" => Some(c09::run),
         "C10" => Some(c10::run),
         "C11" => Some(c11::run),
         "C12" => Some(c12::run),
